@@ -5723,6 +5723,40 @@ impl BytecodeVM {
                 Ok(OpResult::Continue)
             }
 
+            Op::ExportAll { module_specifier } => {
+                let specifier_str = self
+                    .get_string_constant(module_specifier)
+                    .ok_or_else(|| JsError::internal_error("Invalid module specifier constant"))?;
+
+                // Resolve the source module and re-export each of its named exports
+                // (everything except `default`) as a live delegation to the source.
+                let module_obj = interp.resolve_module(specifier_str.as_ref())?;
+                let names: Vec<JsString> = module_obj
+                    .borrow()
+                    .properties
+                    .keys()
+                    .filter_map(|k| match k {
+                        PropertyKey::String(s) if s.as_str() != "default" => Some(s.cheap_clone()),
+                        _ => None,
+                    })
+                    .collect();
+                for name in names {
+                    // An explicit export of this module takes precedence over a star export
+                    if interp.exports.contains_key(&name) {
+                        continue;
+                    }
+                    interp.exports.insert(
+                        name.cheap_clone(),
+                        crate::value::ModuleExport::ReExport {
+                            source_module: module_obj.cheap_clone(),
+                            source_key: PropertyKey::String(name),
+                        },
+                    );
+                }
+
+                Ok(OpResult::Continue)
+            }
+
             Op::ReExport {
                 export_name,
                 source_module,
